@@ -16,11 +16,14 @@ for st in ast.parse((V / "tools" / "py2lean_targets.py").read_text()).body:
         targets = ast.literal_eval(st.value)
 for prop in [a.upper() for a in sys.argv[1:]]:
     gprop = targets.get(prop, {}).get("same_as", prop)
-    src = (V / "lean" / "PyodaProofs" / f"GenAgree{gprop}.lean").read_text()
-    names = re.findall(r"^theorem (gen_\S+)", src, flags=re.M)
+    groups = [gprop] + sorted(k for k, v in targets.items() if v.get("of") == gprop)
+    names = []
+    for g in groups:
+        src = (V / "lean" / "PyodaProofs" / f"GenAgree{g}.lean").read_text()
+        names += [f"{g}.{n}" for n in re.findall(r"^theorem (gen_\S+)", src, flags=re.M)]
     lines, cur = [], "        "
     for n in names:
-        item = f'"Pyoda.GenAgree.{gprop}.{n}", '
+        item = f'"Pyoda.GenAgree.{n}", '
         if len(cur) + len(item) > 118:
             lines.append(cur.rstrip())
             cur = "        "
